@@ -104,6 +104,18 @@ def unitaries(H):
         fam.append(("orbit", G2 @ G1))
     w = np.exp(2j * PI / H)
     fam.append(("dft", np.array([[w ** (i * j) for j in range(H)] for i in range(H)]) / np.sqrt(H)))
+    # a beamsplitter on every ordered NON-adjacent pair of signal modes, alone and followed by an adjacent one (exact zeros in
+    # the patterns the nulling routines of the meshes special-case)
+    for i, j in itertools.permutations(range(H), 2):
+        if abs(i - j) < 2:
+            continue
+        for th, phv in ((PI / 4, 0.0), (0.3, 0.7)):
+            G = np.eye(H, dtype=complex)
+            t2 = T2(th, phv)
+            G[i, i], G[i, j], G[j, i], G[j, j] = t2[0, 0], t2[0, 1], t2[1, 0], t2[1, 1]
+            fam.append(("embedded-pair", G))
+            for G1 in gens[::2]:
+                fam.append(("embedded-pair-product", G1 @ G))
     return fam
 
 
@@ -509,6 +521,11 @@ def run(ctx):
                 for i in range(0, len(sq_all), ch):
                     tasks.append(("x", (H, devkw, compiler, sq_all[i : i + ch], INTF_VARIANTS, MEAS_VARIANTS, True, None)))
             tasks.append(("strict", (H, devkw)))
+    # larger interferometers (3 and 4 signal modes: beamsplitters between non-adjacent and between the outer modes), one squeezer
+    # variant, every mode measured
+    for H in (3, 4):
+        for compiler in ("Xunitary", "Xcov"):
+            tasks.append(("x", (H, {"sq": "set01"}, compiler, [("S2(1)",) * H], ["Interferometer"], ["all"], False, None)))
     # device A -> device B on the same compiler class
     tasks.append(("x", (2, {"sq": "set01"}, "Xunitary", [("S2(1)", "S2(1)")], ["Interferometer"], ["all"], False, (1, {"sq": "set01"}))))
     tasks.append(("x", (1, {"sq": "set01"}, "Xcov", [("S2(1)",)], ["Interferometer"], ["all"], False, (2, {"sq": "set01"}))))
